@@ -12,6 +12,8 @@ Decided:
      resolved against the including file's canonical directory;
   R5 every failed lookup (endpoint, rate limit, hook/group, account, duplicate certificate id) is an Err that
      MainEventLoop::new propagates to its caller (start-up failure).
+  Evaluation-first: R5 for hooks — Config::get_hook and Certificate/Account::get_hooks interpreted on a sample configuration with
+  unknown names in every position (props/hook_table.py): an unresolved hook / group member is an error, never dropped.
 """
 from ..absint import NONE, Val, marker, ok, run, some, struct_val
 from ..flow import arg_origins, origins
@@ -21,13 +23,15 @@ from ..util import agg_assigns, call_true_false_edges, result_return_kinds, unre
 LEVEL = "other"
 TECHNIQUE = ("decision-table extraction by abstract interpretation of the three-level getters over all presence/absence "
              "combinations; field-coverage and same-name pairing of the global merge and list appends; dominance rules on "
-             "read_cnf's visited set; error-edge rules on reference lookups")
+             "read_cnf's visited set; error-edge rules on reference lookups"
+             '; evaluation of hook-name resolution on a sample configuration')
 LEVEL_TEXT = ("Decides the precedence tables completely (every combination of set/unset at each level, not one example), that "
               "the include merge covers and correctly pairs every global option and list section, that de-duplication uses "
               "canonical paths before opening, and that unresolved references are start-up errors. TOML parsing and glob "
               "semantics are trusted.")
 LEVEL_NOTE = ("Not decided: glob expansion, TOML/serde behaviour, filesystem canonicalisation itself. Trusted: rustc MIR, "
-              "extractor, the abstract interpreter (rules/absint.py).")
+              "extractor, the abstract interpreter (rules/absint.py)."
+              ' R5 (hooks) by evaluation is (sample-based: evaluation on the listed sample family is not a proof for all inputs; the structural rule is the fallback when the interpreter cannot run the code)')
 
 C = "acmed::config::Certificate"
 E = "acmed::config::Endpoint"
